@@ -728,13 +728,57 @@ class Exec(Engine):
         return self.fresh(rty, base + '_res', st)
 
     def subclasses_of(self, cls):
+        """Representative subclasses of cls: one per distinguishable behaviour w.r.t. the exception
+        classes the function under verification mentions (except clauses, isinstance, contract raises)."""
         lat = exception_lattice()
         out = []
         for base, subs in lat.items():
             for s in subs:
                 if issubclass(s, cls) and s is not cls and s not in out:
                     out.append(s)
-        return out
+        mentioned = self.mentioned_exceptions()
+        if mentioned is None:
+            return out
+        seen = {tuple(issubclass(cls, m) for m in mentioned)}
+        reps = []
+        for s in out:
+            sig = tuple(issubclass(s, m) for m in mentioned)
+            if sig not in seen:
+                seen.add(sig)
+                reps.append(s)
+        return reps
+
+    def mentioned_exceptions(self):
+        c = self.cur_contract
+        if c is None:
+            return None
+        cache = self.__dict__.setdefault('_mentioned', {})
+        if c.qualname in cache:
+            return cache[c.qualname]
+        fnode = find_function(c.module, c.func)
+        names = set()
+        for n in ast.walk(fnode):
+            if isinstance(n, ast.ExceptHandler) and n.type is not None:
+                for m in ast.walk(n.type):
+                    if isinstance(m, ast.Name):
+                        names.add(m.id)
+                    elif isinstance(m, ast.Attribute):
+                        names.add(m.attr)
+            if isinstance(n, ast.Call) and isinstance(n.func, ast.Name) and n.func.id == 'isinstance' and len(n.args) == 2:
+                for m in ast.walk(n.args[1]):
+                    if isinstance(m, ast.Name):
+                        names.add(m.id)
+                    elif isinstance(m, ast.Attribute):
+                        names.add(m.attr)
+        for k in c.raises:
+            names.add(k.rstrip('*?'))
+        classes = []
+        for nm in sorted(names):
+            k = self.exc_class(nm)
+            if k is not None and k not in classes:
+                classes.append(k)
+        cache[c.qualname] = classes
+        return classes
 
     def havoc_modifies(self, c, bound, st, node):
         for expr in (c.modifies or ()):
